@@ -257,6 +257,15 @@ func runC12(r *engine.Run) {
 				}
 				return errS(b.AddChannel(base+9000000-uint32(n)*200000, init.CFListMinDR, init.CFListMaxDR))
 			}},
+			{Name: "Add(placeholder 0 Hz,cflist-range)", Do: func(obj interface{}) string {
+				// an unused CFList slot configured as a disabled channel; later channels keep
+				// their place in both the uplink and the downlink list (round 16: C12-r16)
+				b := obj.(band.Band)
+				if _, ok := room(b); !ok {
+					return "skip"
+				}
+				return errS(b.AddChannel(0, init.CFListMinDR, init.CFListMaxDR))
+			}},
 			{Name: "Add(frequency-of-channel-1,DR6..6)", Do: func(obj interface{}) string {
 				b := obj.(band.Band)
 				if _, ok := room(b); !ok {
